@@ -136,17 +136,17 @@ pub fn vrl_tree_id() -> String {
 }
 
 /// Run a session (and its optional reference) in fresh processes and judge it.
-pub fn execute(judge_name: &str, session: &SessionSpec, reference: Option<&SessionSpec>, timeout: Duration) -> Result<Vec<Violation>, String> {
+pub fn execute(judge_name: &str, session: &SessionSpec, reference: &[SessionSpec], timeout: Duration) -> Result<Vec<Violation>, String> {
     let res = driver::run_one(session, timeout);
-    let ref_res = reference.map(|r| driver::run_one(r, timeout));
-    judge::judge(judge_name, session, &res, reference, ref_res.as_ref())
+    let ref_res: Vec<_> = reference.iter().map(|r| driver::run_one(r, timeout)).collect();
+    judge::judge(judge_name, session, &res, reference, &ref_res)
 }
 
 pub struct Reporter {
     pub property: String,
     pub known: KnownFindings,
     /// group key -> (violation, judge, session, reference)
-    pub groups: BTreeMap<String, (Violation, String, SessionSpec, Option<SessionSpec>)>,
+    pub groups: BTreeMap<String, (Violation, String, SessionSpec, Vec<SessionSpec>)>,
     pub total_candidates: u64,
     pub seed: u64,
 }
@@ -163,7 +163,7 @@ impl Reporter {
     }
 
     /// Record a candidate violation together with the smallest session known to show it.
-    pub fn candidate(&mut self, v: Violation, judge: &str, session: SessionSpec, reference: Option<SessionSpec>) {
+    pub fn candidate(&mut self, v: Violation, judge: &str, session: SessionSpec, reference: Vec<SessionSpec>) {
         self.total_candidates += 1;
         let key = v.group_key();
         match self.groups.get(&key) {
@@ -199,7 +199,7 @@ impl Reporter {
             let same = |vs: &[Violation]| vs.iter().find(|w| w.group_key() == v.group_key()).cloned();
             let mut confirmed = None;
             for _ in 0..5 {
-                match execute(&judge_name, &session, reference.as_ref(), ctx.session_timeout) {
+                match execute(&judge_name, &session, &reference, ctx.session_timeout) {
                     Ok(vs) => {
                         if let Some(w) = same(&vs) {
                             confirmed = Some(w);
@@ -225,7 +225,7 @@ impl Reporter {
                 }
                 continue;
             }
-            let (min_session, min_reference, min_v) = crate::minimise::minimise(&judge_name, &session, reference.as_ref(), &confirmed, Duration::from_secs(if ctx.quick() { 25 } else { 90 }));
+            let (min_session, min_reference, min_v) = crate::minimise::minimise(&judge_name, &session, &reference, &confirmed, Duration::from_secs(if ctx.quick() { 25 } else { 90 }));
             let file = ReplayFile {
                 property: min_v.property.clone(),
                 class: min_v.class.clone(),
